@@ -4,6 +4,7 @@ package main
 
 import (
 	"bytes"
+	"crypto/sha256"
 	"fmt"
 	"io"
 	"math/big"
@@ -11,6 +12,8 @@ import (
 
 	"github.com/consensys/gnark-crypto/ecc"
 	curve "github.com/consensys/gnark-crypto/ecc/bn254"
+	"github.com/consensys/gnark-crypto/ecc/bn254/fr"
+	gcmpc "github.com/consensys/gnark-crypto/ecc/bn254/mpcsetup"
 	"github.com/consensys/gnark/backend/groth16"
 	mpc "github.com/consensys/gnark/backend/groth16/bn254/mpcsetup"
 	"github.com/consensys/gnark/constraint"
@@ -44,6 +47,48 @@ func readPhase1(b []byte) (*mpc.Phase1, error) {
 		return nil, fmt.Errorf("panic: %s", pm)
 	}
 	return p, err
+}
+
+// forgePhase2OtherChallenge builds, from the bytes of a contribution, a next contribution with fresh delta / sigma values,
+// correctly rescaled parameters and update proofs computed over a challenge that is not the hash of the previous one
+func forgePhase2OtherChallenge(prevB []byte, empty bool) []byte {
+	q, err := readPhase2(prevB)
+	if err != nil {
+		return nil
+	}
+	w32 := sha256.Sum256([]byte("some other transcript"))
+	wrong := w32[:]
+	if empty {
+		wrong = nil // an undeclared challenge: the proofs are bound to nothing
+	}
+	var delta fr.Element
+	q.Delta = gcmpc.UpdateValues(&delta, wrong, 0)
+	sig := make([]fr.Element, len(q.Parameters.G1.SigmaCKK))
+	for i := range sig {
+		q.Sigmas[i] = gcmpc.UpdateValues(&sig[i], wrong, byte(1+i))
+	}
+	var I big.Int
+	for i := range sig {
+		sig[i].BigInt(&I)
+		q.Parameters.G2.Sigma[i].ScalarMultiplication(&q.Parameters.G2.Sigma[i], &I)
+		for j := range q.Parameters.G1.SigmaCKK[i] {
+			q.Parameters.G1.SigmaCKK[i][j].ScalarMultiplication(&q.Parameters.G1.SigmaCKK[i][j], &I)
+		}
+	}
+	delta.BigInt(&I)
+	q.Parameters.G2.Delta.ScalarMultiplication(&q.Parameters.G2.Delta, &I)
+	q.Parameters.G1.Delta.ScalarMultiplication(&q.Parameters.G1.Delta, &I)
+	var dinv fr.Element
+	dinv.Inverse(&delta)
+	dinv.BigInt(&I)
+	for i := range q.Parameters.G1.Z {
+		q.Parameters.G1.Z[i].ScalarMultiplication(&q.Parameters.G1.Z[i], &I)
+	}
+	for i := range q.Parameters.G1.PKK {
+		q.Parameters.G1.PKK[i].ScalarMultiplication(&q.Parameters.G1.PKK[i], &I)
+	}
+	q.Challenge = wrong
+	return ser(q)
 }
 
 func readPhase2(b []byte) (*mpc.Phase2, error) {
@@ -497,9 +542,22 @@ func runC18(args []string) int {
 			chain2Check("duplicated", a2[0], a2[0])
 			chain2Check("spliced from another transcript", a2[0], b2[1])
 			chain2Check("first contribution missing", a2[1], a2[2])
+			// a contribution that rescales the previous parameters consistently but whose proofs of knowledge are bound to the
+			// hash of ANOTHER transcript (declared as its challenge): it does not extend the previous contribution
+			if forged := forgePhase2OtherChallenge(a2[0], false); forged != nil {
+				chain2Check("proofs bound to another transcript's challenge", a2[0], forged)
+			}
+			if pm := catchPanic(func() {
+				if forged := forgePhase2OtherChallenge(a2[0], true); forged != nil {
+					chain2Check("proofs bound to an empty challenge", a2[0], forged)
+				}
+			}); pm != "" {
+				rep.Count("phase2-empty-challenge-not-serialisable")
+			}
 		}
 		_ = rng
 	}
+	c18Torsion381(rep)
 	rep.Write(o.Out)
 	return 0
 }
